@@ -75,7 +75,7 @@ class Container:
 
 
 class WStub:
-    """stand-in for blimpy.Waterfall"""
+    """stand-in for blimpy.Waterfall (a full-file load: the time selection starts at integration 0)"""
     def __init__(self, filename=None, max_load=None, **kw):
         self.header = {'nbits': 32, 'nifs': 1, 'source_name': 'sample', 'rawdatafile': 'x', 'fch1': 8000.0, 'foff': -2.7939677238464355e-06,
                        'tsamp': 18.253611008, 'tstart': 59000.0, 'nchans': 1024}
@@ -83,6 +83,7 @@ class WStub:
         self.container = Container()
         self.container.selection_shape = (16, 1, 1024)
         self.container.f_start, self.container.f_stop = 7999.9, 8000.0
+        self.container.t_start, self.container.t_stop = 0, 16
         self.data = None
         self.freq_axis = 2
 
@@ -123,6 +124,7 @@ def job_chain(T, Fc, asc, stale):
     recs = []
     tag = f"C03:chain:{(T, Fc, asc, stale)}"
     df, dt, fch1, pre = geom_syms()
+    pre = pre + [z3.Int('stale_t0') >= 0, z3.Int('stale_t0') <= 1000, z3.Int('stale_t1') > z3.Int('stale_t0')]
     t0 = Sym(z3.Real('t_start'))
     D = sym_data(T, Fc)
     px = npx.NPProxy()
@@ -135,6 +137,8 @@ def job_chain(T, Fc, asc, stale):
             w = WStub()
             w.container.selection_shape = (stale[0], 1, stale[1])
             w.container.f_start, w.container.f_stop = Sym(z3.Real('stale_f0')), Sym(z3.Real('stale_f1'))
+            # ... and a time selection that does not start at the first integration (Waterfall(fn, t_start=k))
+            w.container.t_start, w.container.t_stop = Sym(z3.ToReal(z3.Int('stale_t0')), True), Sym(z3.ToReal(z3.Int('stale_t1')), True)
             w.header.update({'foff': (1 if asc else -1) * 3.0e-6, 'fch1': Sym(z3.Real('stale_fch1')), 'nchans': stale[1], 'source_name': 'SRC'})
             fr.waterfall = w
         fr._update_waterfall(filename=None)
@@ -243,7 +247,7 @@ def job_chain_subband(T, n, asc):
 
 
 # ---------------------------------------------------------------- (H) histories on real files
-OPS = ('get_waterfall', 'copy', 'save_load', 'slice', 'dedrift')
+OPS = ('get_waterfall', 'copy', 'save_load', 'slice', 'dedrift', 'timesel_load')
 
 
 def apply_history(stg, fr, ops, ext, tmp, tag):
@@ -256,6 +260,13 @@ def apply_history(stg, fr, ops, ext, tmp, tag):
             fn = os.path.join(tmp, f'{tag}_{k}.{ext}')
             (fr.save_fil if ext == 'fil' else fr.save_h5)(fn)
             fr = stg.Frame(waterfall=fn)
+        elif op == 'timesel_load':
+            # load through a Waterfall OBJECT carrying a time selection that does not start at integration 0
+            if fr.tchans >= 4:
+                from blimpy import Waterfall
+                fn = os.path.join(tmp, f'{tag}_{k}.{ext}')
+                (fr.save_fil if ext == 'fil' else fr.save_h5)(fn)
+                fr = stg.Frame(waterfall=Waterfall(fn, t_start=1, t_stop=fr.tchans))
         elif op == 'slice':
             if fr.fchans >= 5:          # blimpy's HDF5 reader cannot open files with fewer than 3 channels
                 fr = fr.get_slice(1, fr.fchans - 1)
